@@ -208,7 +208,7 @@ class SpmcEngine(Engine):
     model_file = "Chan/SpmcOps.v"
 
     def n_cases(self, tier):
-        return 2500 if tier == "quick" else 60000
+        return 1200 if tier == "quick" else 60000
 
     # ---------------------------------------------------------------- corpus
     def corpus(self):
